@@ -32,14 +32,14 @@ NOT_NUMBERS = ["3.", "5 ", " 5", "30.", "1e1", "0x1F", "18446744073709551646", "
 
 
 def act(a, **kw):
-    d = dict(a=a, seq=0, sq="ok", integ="none", hb=0, enc="0", cred=True, id=[], b=0, e=0, ms=0, mid="", midSeq=0)
+    d = dict(a=a, seq=0, sq="ok", integ="none", hb=0, enc="0", cred=True, id=[], b=0, e=0, ms=0, mid="", midSeq=0, omit="")
     d.update(kw)
     return d
 
 
-def cfg(role, hbmin=1, hbmax=60, hbcfg=30, closems=1000, startseq=0, buf=10, savefailfrom=0):
+def cfg(role, hbmin=1, hbmax=60, hbcfg=30, closems=1000, startseq=0, buf=10, savefailfrom=0, creds="", savefailonly=0):
     return dict(role=role, hbMin=hbmin, hbMax=hbmax, hbCfg=hbcfg, encCfg="0", allowed=["0"],
-                closeMs=closems, startSeq=startseq, buf=buf, saveFailFrom=savefailfrom)
+                closeMs=closems, startSeq=startseq, buf=buf, saveFailFrom=savefailfrom, creds=creds, saveFailOnly=savefailonly)
 
 
 class Peer:
@@ -187,6 +187,13 @@ def gen_systematic():
                     st += [p(mid), act("advance", ms=tin + tin // 10 + tin // 20 + 1)]
                 st += [act("advance", ms=tin + tin // 10 + tin // 20 + 5), act("advance", ms=tin)]
                 out.append(dict(id="sys-%s-%d-storefail-%s" % (role[0], N, mid), cfg=cfg(role, hbmin=1, hbmax=60, hbcfg=N, closems=1000, savefailfrom=2), steps=st))
+            # (d) a single Save fails (an application send in the middle of a heartbeat interval): that message does not leave, so it
+            # does not postpone the heartbeat either
+            for frac in (3, 2):
+                p = Peer()
+                st = logged_on_prefix(role, N, p)
+                st += [act("advance", ms=T // frac), act("send"), act("advance", ms=T - T // frac + T // 10 + 1), p("hbt"), act("send"), act("advance", ms=T + T // 10 + 1)]
+                out.append(dict(id="sys-%s-%d-savefail-once-%d" % (role[0], N, frac), cfg=cfg(role, hbmin=1, hbmax=60, hbcfg=N, closems=1000, savefailonly=2), steps=st))
             for call in ("llogout", "stop"):
                 for cross in ("hbt", "testreq", "app", "resend", "unknown"):
                     for closems in (500, 20000):
@@ -196,6 +203,91 @@ def gen_systematic():
                                act("advance", ms=300), act("advance", ms=closems + 10)]
                         out.append(dict(id="sys-%s-%d-%s-crossed-by-%s-%d" % (role[0], N, call, cross, closems),
                                         cfg=cfg(role, hbmin=1, hbmax=60, hbcfg=N, closems=closems), steps=st))
+    return out
+
+
+def gen_config():
+    """boundary configurations: heartbeat limits with Min = Max, several allowed encryption methods, close timeout 0, buffer sizes 0 / 1"""
+    out = []
+    k = 0
+    for hbmin, hbmax in ((30, 30), (1, 1), (60, 60), (5, 6)):
+        for hb in sorted({hbmin - 1, hbmin, hbmax, hbmax + 1}):
+            for buf in (0, 1):
+                p = Peer()
+                st = [act("run"), p("logon", hb=hb), p("testreq", id=[65]), act("send"), p("logon", hb=hbmin), p("hbt"), p("logout"), p("logon", hb=hbmax)]
+                c = cfg("acceptor", hbmin=hbmin, hbmax=hbmax, hbcfg=hbmin, closems=0, buf=buf)
+                out.append(dict(id="cfg-hb-%d" % k, cfg=c, steps=st))
+                k += 1
+    for allowed in (["0", "2"], ["2"], ["0", "2", "5"], ["10"]):
+        for enc in ("0", "2", "5", "1", "10", "20", ""):
+            p = Peer()
+            st = [act("run"), p("logon", hb=30, enc=enc), p("testreq", id=[66]), p("logon", hb=30, enc=allowed[0]), act("send"), p("logout")]
+            c = cfg("acceptor", closems=1)
+            c["allowed"] = allowed
+            out.append(dict(id="cfg-enc-%d" % k, cfg=c, steps=st))
+            k += 1
+    # an initiator configured with a user name only, a password only, neither: its Logon carries exactly what is configured
+    for creds in ("useronly", "passonly", "none"):
+        p = Peer()
+        st = logged_on_prefix("initiator", 30, p) + [act("send"), p("logout"), act("relogon"), p("logon", hb=30), p("testreq", id=[68])]
+        out.append(dict(id="cfg-creds-%s" % creds, cfg=cfg("initiator", creds=creds), steps=st))
+    # a Logon that lacks EncryptMethod / HeartBtInt, as the first message and after Logons that were refused or damaged
+    for omit in ("enc", "hb", "both"):
+        for before in ("none", "cred", "hb-high", "checksum", "nonnum", "accepted-then-logout"):
+            p = Peer()
+            st = [act("run")]
+            if before == "cred":
+                st.append(p("logon", hb=30, cred=False))
+            elif before == "hb-high":
+                st.append(p("logon", hb=999))
+            elif before in ("checksum", "nonnum"):
+                st.append(p("logon", hb=30, integ=before))
+            elif before == "accepted-then-logout":
+                st += [p("logon", hb=30), p("logout")]
+            st.append(p("logon", hb=0 if omit in ("hb", "both") else 30, enc="" if omit in ("enc", "both") else "0", omit=omit))
+            st += [p("testreq", id=[69]), p("resend", b=1, e=0), p("logon", hb=30), p("hbt")]
+            out.append(dict(id="cfg-omit-%s-after-%s" % (omit, before), cfg=cfg("acceptor", startseq=3), steps=st))
+            k += 1
+    for role in ("acceptor", "initiator"):
+        for closems in (0, 1):
+            for buf in (0, 1):
+                p = Peer()
+                st = logged_on_prefix(role, 30, p) + [act("send"), act("stop"), act("stop"), p("logout"), act("send"), act("llogout"), p("hbt")]
+                out.append(dict(id="cfg-stop-%d" % k, cfg=cfg(role, closems=closems, buf=buf), steps=st))
+                k += 1
+                p = Peer()
+                st = logged_on_prefix(role, 30, p) + [act("llogout"), act("llogout"), p("logout"), act("llogout"), p("logon", hb=30), act("send")]
+                out.append(dict(id="cfg-logout-%d" % k, cfg=cfg(role, closems=closems, buf=buf), steps=st))
+                k += 1
+    return out
+
+
+def gen_lookalike():
+    """C18 at the level of the session: application messages whose values / longer tag numbers look like the fields the session itself
+    looks up (MsgType 35, MsgSeqNum 34), then a logout and a second Logon with the next number: every message was counted, so no
+    retransmission is asked for; and with a gap: it is asked for from the right number."""
+    out = []
+    texts = [b"see rule 35=4", b"35=4", b"x 34=9", b"34=2", b"35=A", b"10=000", b"35=5"]
+    tags = [(135, 4), (1035, 4), (935, 4), (134, 9), (1034, 1), (3435, 4), (350, 4), (340, 7), (347, 7)]
+    for role in ("acceptor", "initiator"):
+        for gap in (0, 2):
+            for variant in range(3):
+                p = Peer()
+                st = logged_on_prefix(role, 30, p)
+                for i, t in enumerate(texts):
+                    if i % 3 == variant:
+                        st.append(p("app", id=list(t)))
+                for i, (tg, v) in enumerate(tags):
+                    if i % 3 == variant:
+                        st.append(p("app", b=tg, e=v))
+                # (the Logout itself carries look-alike text: it is the last message counted before the second Logon)
+                st += [p("testreq", id=list(b"35=4")), p("logout", id=list(texts[variant]))]
+                if role == "initiator":
+                    st.append(act("relogon"))
+                p.n += gap
+                st.append(p("logon", hb=30))
+                st += [p("hbt"), act("send")]
+                out.append(dict(id="look-%s-%d-%d" % (role[0], gap, variant), cfg=cfg(role), steps=st))
     return out
 
 
@@ -270,6 +362,13 @@ def gen_resend(rnd, n):
             st += [act("send") for _ in range(n2)] + [p("testreq", id=[67])]
             st += [p("resend", b=1, e=0), p("resend", b=2, e=3), p("resend", b=1, e=n2 + 1)]
             out.append(dict(id="rs-rewind-%s-%d-%d" % (role[0], n1, n2), cfg=cfg(role), steps=st))
+    # an application handler that amends every outgoing message: the retransmission is still byte-identical to the first transmission
+    for role in ("acceptor", "initiator"):
+        p = Peer()
+        st = logged_on_prefix(role, 30, p) + [act("send"), p("testreq", id=[70]), act("send"), p("resend", b=1, e=0), act("send"), p("resend", b=2, e=4)]
+        c = cfg(role)
+        c["stamp"] = True
+        out.append(dict(id="rs-stamp-%s" % role[0], cfg=c, steps=st))
     # gap pairs (expected, received)
     for role in ("acceptor", "initiator"):
         for first in range(1, 6):
@@ -404,6 +503,8 @@ def run_driver(run, binp, scns, name, testname="TestScenarios", extra_env=None):
                     # other shapes of "not a number": digits with a stray character, blanks, exponents, hex, numerals beyond the
                     # range of an int (2^64 + 30, 2^63); "" = letters
                     a["numTxt"] = NOT_NUMBERS[(h // 4) % len(NOT_NUMBERS)] if nn and h % 4 in (1, 2) else ""
+                    # the same message written differently (an unknown field, header fields in another order): one in four valid ones
+                    a["extra"] = 1 + (h // 8) % 4 if (not nn and a.get("integ", "none") == "none" and a.get("sq", "ok") == "ok" and h % 4 == 3) else 0
             f.write(json.dumps(sc) + "\n")
     shards = min(NCPU, max(1, len(scns) // 20))
     procs = []
@@ -502,6 +603,8 @@ def common_pool(run, rnd, quick):
     scns += tlc_scenarios(run, "acceptor", "logon", 2 if quick else 3, keep=(150 if quick else 3000), rnd=rnd, hbmin=3, hbmax=5, hbcfg=4)
     scns += gen_core(rnd)
     scns += gen_systematic()
+    scns += gen_lookalike()
+    scns += gen_config()
     scns += gen_timing(rnd, 2 if quick else 25)
     scns += gen_ids(rnd, 10 if quick else 400)
     scns += gen_resend(rnd, 40 if quick else 1200)
